@@ -16,7 +16,7 @@ import ast
 from . import e2_formula as F
 from . import sem
 from .core import Unsupported
-from .e1_srcmodel import dotted
+from .e1_srcmodel import dotted, walk_no_nested
 from .e2_eval import AutoEvaluator, Evaluator, Unknown, const_from_node, is_unknown, need, ZERO_CTORS
 
 NONE = F.sym("None")
@@ -335,6 +335,12 @@ class GenEval(AutoEvaluator):
         self.events = []                        # ("call", name, pos, kws, node) | ("setattr", dotted, value, node) | ("del", dotted, node) | ("raise", node)
         self.trace = []                         # ("stmt", node) | ("enter", call node, fn) | ("exit", call node, fn)
         self.skipped_guards = []
+        a = fn.args
+        params = {x.arg for x in a.posonlyargs + a.args + a.kwonlyargs} | ({a.vararg.arg} if a.vararg else set()) | ({a.kwarg.arg} if a.kwarg else set())
+        self.locals_ = set()
+        for n in walk_no_nested(fn):
+            if isinstance(n, ast.Name) and isinstance(n.ctx, (ast.Store, ast.Del)) and n.id not in params:
+                self.locals_.add(n.id)
 
     # ------------------------------------------------------------------ conditions
     def _cond(self, test, ev):
@@ -371,6 +377,9 @@ class GenEval(AutoEvaluator):
     def _name(self, nm):
         if nm in self.env:
             return self.env[nm]
+        if nm in self.locals_:
+            # a local that no statement on this path has bound: reading it is an UnboundLocalError, not a symbol of its own
+            return Unknown(f"local `{nm}` is not bound on this path")
         if self.rel is not None:
             c = self.consts.get(self.rel, nm)
             if c is not None:
@@ -682,7 +691,7 @@ class GenEval(AutoEvaluator):
         if name == "np.transpose" and len(args) == 1:
             return self._T(self.ev(args[0]))
         if name in ("np.ravel", "np.asarray", "np.array", "np.atleast_1d", "np.atleast_2d", "np.ascontiguousarray", "np.asfortranarray",
-                    "np.squeeze", "np.real", "float", "complex") and len(args) >= 1:
+                    "np.squeeze", "np.real", "float", "complex", "int", "operator.index") and len(args) >= 1:
             return self.ev(args[0])
         if name in ("np.add", "np.subtract", "np.multiply", "np.divide") and len(args) >= 2:
             op = {"np.add": ast.Add(), "np.subtract": ast.Sub(), "np.multiply": ast.Mult(), "np.divide": ast.Div()}[name]
